@@ -43,10 +43,11 @@ def main():
     name, pid, src = args[0], args[1], args[2]
     dest = os.path.join(ROOT, "seeded", name)
     os.makedirs(dest, exist_ok=True)
+    same = os.path.abspath(src) == os.path.abspath(dest)  # re-evaluation of a kept seed in place
     for f in ("patch.diff", "notes.md"):
-        if os.path.exists(os.path.join(src, f)):
+        if not same and os.path.exists(os.path.join(src, f)):
             shutil.copy(os.path.join(src, f), os.path.join(dest, f))
-    if os.path.isdir(os.path.join(src, "demo")):
+    if not same and os.path.isdir(os.path.join(src, "demo")):
         shutil.rmtree(os.path.join(dest, "demo"), ignore_errors=True)
         shutil.copytree(os.path.join(src, "demo"), os.path.join(dest, "demo"))
     prev = {}
